@@ -204,4 +204,15 @@ MUTANTS = [
          old="    queue.sort();\n    queue.reverse();\n", new=""),
     dict(name="discover-sort-without-reverse-harmless", prop="C13", units=["u_discover"], file="crates/compiler/src/pipeline/packages.rs", expect=0,
          old="    queue.sort();\n    queue.reverse();\n", new="    queue.sort();\n"),
+    # ---- U-TOPO
+    dict(name="topo-missing-import-ignored", prop="C16", units=["u_topo"], file="crates/compiler/src/pipeline/packages.rs", expect=1,
+         old="        if !graph.packages.contains_key(&dep) {\n            return Err(", new="        if false {\n            return Err("),
+    dict(name="topo-order-before-deps", prop="C16", units=["u_topo"], file="crates/compiler/src/pipeline/packages.rs", expect=1,
+         old="    stack.pop();\n    temp.remove(name);\n    perm.insert(name.to_string());\n    order.push(name.to_string());\n    Ok(())", new="    stack.pop();\n    temp.remove(name);\n    Ok(())"),
+    dict(name="topo-names-unsorted", prop="C13", units=["u_topo"], file="crates/compiler/src/pipeline/packages.rs", expect=1,
+         old="    let mut names: Vec<String> = graph.packages.keys().cloned().collect();\n    names.sort();", new="    let mut names: Vec<String> = graph.packages.keys().cloned().collect();"),
+    dict(name="topo-deps-unsorted", prop="C13", units=["u_topo"], file="crates/compiler/src/pipeline/packages.rs", expect=1,
+         old="    let mut deps: Vec<String> = package.imports.iter().cloned().collect();\n    deps.sort();\n\n    for dep in deps {\n        if !graph", new="    let mut deps: Vec<String> = package.imports.iter().cloned().collect();\n\n    for dep in deps {\n        if !graph"),
+    dict(name="topo-cycle-message-harmless", prop="C16", units=["u_topo"], file="crates/compiler/src/pipeline/packages.rs", expect=0,
+         old='"package dependency cycle detected: {}"', new='"import cycle: {}"'),
 ]
